@@ -1,10 +1,12 @@
 #!/bin/bash
 # seed_matrix.sh: apply every seeded change in turn, run its property's quick check, record what was reported.
+# usage: seed_matrix.sh [pattern [outfile]]   e.g. seed_matrix.sh 'C*-l' seeded/RESULTS_repo.md   (default: every seed, seeded/RESULTS_repo.md)
 cd /verif
-out=seeded/RESULTS.md
+pat=${1:-*}
+out=${2:-seeded/RESULTS_repo.md}
 echo "| seed | property check | exit | signatures reported |" > $out
 echo "|---|---|---|---|" >> $out
-for d in seeded/*/; do
+for d in seeded/$pat/; do
   n=$(basename $d); p=${n%%-*}
   [ -f $d/patch.diff ] || continue
   if [ -n "$(git -C /repo status --porcelain)" ]; then echo "/repo not clean"; exit 2; fi
